@@ -9,6 +9,7 @@ package interp
 
 import (
 	"bytes"
+	"go/types"
 	"maps"
 	"math"
 	"os"
@@ -85,6 +86,7 @@ func init() {
 		"math.Ldexp":                      ext۰math۰Ldexp,
 		"math.Log":                        ext۰math۰Log,
 		"math.Min":                        ext۰math۰Min,
+		"math.Max":                        ext۰math۰Max,
 		"math.NaN":                        ext۰math۰NaN,
 		"math.Sqrt":                       ext۰math۰Sqrt,
 		"os.Exit":                         ext۰os۰Exit,
@@ -166,7 +168,19 @@ func ext۰math۰Float32bits(fr *frame, args []value) value {
 }
 
 func ext۰math۰Min(fr *frame, args []value) value {
+	if isSym(args[0]) || isSym(args[1]) {
+		// integers converted to float64 are never NaN or -0, where fp.min and
+		// math.Min could differ
+		return mkval(fr.i.ts().FPBin("fp.min", fr.i.term(args[0]), fr.i.term(args[1])), types.Float64)
+	}
 	return math.Min(args[0].(float64), args[1].(float64))
+}
+
+func ext۰math۰Max(fr *frame, args []value) value {
+	if isSym(args[0]) || isSym(args[1]) {
+		return mkval(fr.i.ts().FPBin("fp.max", fr.i.term(args[0]), fr.i.term(args[1])), types.Float64)
+	}
+	return math.Max(args[0].(float64), args[1].(float64))
 }
 
 func ext۰math۰NaN(fr *frame, args []value) value {
